@@ -74,6 +74,14 @@ class Ctx:
         except mir.AnchorLost as e:
             self.lost(rule, instance, str(e))
             return None
+        except F.ExtractError:
+            raise
+        except Exception as e:      # a rule that cannot be evaluated on this tree decides nothing: fail closed, with the reason
+            import traceback
+            tb = traceback.extract_tb(e.__traceback__)
+            at = "%s:%d" % (tb[-1].filename.split("/")[-1], tb[-1].lineno) if tb else "?"
+            self.fail(rule, instance, "the rule could not be evaluated on this tree (%s: %s at %s): the code it anchors on changed shape" % (type(e).__name__, str(e)[:200], at), key="%s:%s:rule-error" % (rule, instance))
+            return None
 
     # ---- known findings ----
     def known(self):
